@@ -100,8 +100,31 @@ def run(tier, seed):
             r = min(v, key=lambda x: len(x['hist']))
             chk.violation('two compilations of the same input are not equivalent (%s) on input %s: status %s vs %s for %s %s' % (vn, r['hist'], r.get('ares'), r.get('bres'), a_.name, a_.args),
                           {'program': a_.name, 'source': a_.src, 'args': a_.args, 'variant': vn, 'history': r['hist'], 'report': r})
+    # the emitted C of compilations with a history: one long-lived process compiles loops with conditional breaks, cases and general
+    # programs one after the other (garbage in between); every binary built from *that* text is bound to the machine exported by the same
+    # call - every state x every byte, and the specification-guided inputs as one chunk (a jump that depends on what was compiled before
+    # shows inside a chunk)
+    from props import c06
+    hitems = []
+    for i in range(14 if quick else 40):
+        sd = rng.randrange(1 << 30)
+        # (a large plain program first: a compiler that remembers things by address has many addresses to remember afterwards)
+        hitems.append(('filler:%d' % i, 'parser { "' + 'abcdefghij' * rng.choice([5, 20, 50, 90]) + '"; }\n', ['-O1']))
+        hitems.append(('hist-brk:%d' % sd, genprog.gen_break_program(sd)[1], [rng.choice(['-O1', '-O2', '-O3'])]))
+        if i % 3 == 0:
+            hitems.append(('hist-case:%d' % sd, genprog.gen_case_program(sd, False)[1], ['-O1']))
+    hjobs = [{'id': i, 'src': s_, 'args': a_, 'name': 'p', 'want': ['machine', 'c'], 'garbage': [0, 500, 20000][i % 3]} for i, (n_, s_, a_) in enumerate(hitems)]
+    hres = compiler.run_jobs(hjobs, nworkers=1, env_extra={'PYTHONHASHSEED': '3'}, timeout=120)
+    hprogs = []
+    for i, (n_, s_, a_) in enumerate(hitems):
+        q = runner.Prog(i, n_, s_, a_)
+        q.res = hres[i]
+        if q.ok and q.res.get('c') and not n_.startswith('filler'):
+            hprogs.append(q)
+    hcs = c06.c_stage(chk, hprogs, rng, 1, 'program compiled late in a long-lived process', prebuilt=True) if hprogs else {'states': 0, 'transitions': 0, 'sweeps': 0, 'accepted': 0, 'binaries': 0}
     chk.coverage = {
-        'states': st['states'], 'transitions': st['transitions'], 'traces_validated_against_impl': len(pairs),
+        'emitted_c_of_compilations_with_history': hcs,
+        'states': st['states'] + hcs['states'], 'transitions': st['transitions'] + hcs['transitions'], 'traces_validated_against_impl': len(pairs) + hcs['accepted'],
         'samples': [{'program': items[0][0], 'args': items[0][2], 'variants': list(variants)}],
         'programs': len(items), 'compile_calls': len(items) * (1 + len(variants)) + len(items), 'verdict_comparisons': nver, 'machine_pairs': len(pairs),
         'equiv_reports': dict(kinds), 'exhaustive': False,
